@@ -156,7 +156,9 @@ def x_in_grid(draw, grid, lo_frac=0.0, allow_one=False, classes=None):
     if cls == "near_node":
         i = draw(st.integers(1, len(g) - 2))
         s = draw(st.sampled_from([-1, 1]))
-        return g[i] * (1 + s * 1e-9), cls
+        # relative distance to the node: 1e-9 as often as any other decade between 1e-12 and 1e-3
+        dlt = draw(st.sampled_from([1e-9, 1e-9]) | st.floats(3.0, 12.0).map(lambda e: float(f"{10.0 ** -e:.3g}")))
+        return g[i] * (1 + s * dlt), cls
     if cls == "above_xmin":
         return g[0] * (1 + draw(st.floats(1e-9, 1e-2))), cls
     if cls == "large":
